@@ -87,11 +87,16 @@ CHECKS['C18'] = {
     'note': 'Trusted: redb transaction/table shells, HashMap entry shell. Frame of unopened tables inside a transaction cannot be expressed; 002/003 Execute paths unspecified.',
     'technique': TECH,
 }
+CHECKS['C14'] = {
+    'text': 'Per-function half of the statement: Verus proves on the real text of OpenReplicas that every open adds exactly one handle (creating the entry through the callback exactly on the first open, nothing created if it fails), sync is sticky across additional opens (OR-ed, never cleared by an open), close releases exactly one handle and returns true iff the document is not open afterwards, the data-structure invariant handles >= 1 is preserved by every operation (so wrapping_sub never wraps), replica / get_mut / ensure_open succeed iff open and change nothing otherwise, replica_if_syncing additionally requires the sync flag, other documents are never touched; Actor::close closes the replica in the store iff the last handle went away. The actor-loop clauses (ordering, concurrency, shutdown) are outside contracts; a bounded stand-in exercises all single-client request sequences up to length 4 (5 in the thorough tier).',
+    'design_ref': 'DESIGN.md sections 0.4 and 5, C14',
+    'note': 'Trusted: HashMap entry API shell, subscribers opaque. Not covered by proof: actor loop ordering, concurrent clients, shutdown, the action arms; see coverage.not_covered.',
+    'technique': TECH,
+}
 NOT_APPLICABLE = {
     'C01': 'whole-session convergence of the generic async reconciliation routine (GAT iterators, three closures, FuturesOrdered) is a protocol proof over message histories, outside function contracts; Verus cannot take process_message, Kani cannot run the redb store or Bytes',
     'C04': 'statement over interleavings/histories of 2..5 replicas with lossy gossip and restarts; no function or data structure whose contract expresses it',
     'C06': 'needs crash points, redb recovery semantics and wall-clock commit placement; none of these is an input of any function, redb is a trusted dependency',
-    'C14': 'handle counting is written against HashMap::entry (Vacant/Occupied guards) which neither Verus (no spec) nor Kani (hashbrown SIMD ICE) can handle; the remaining clauses are actor scheduling/FIFO/concurrency, on which this family is silent',
 }
 for _p in ['C02','C03','C05','C07','C08','C09','C10','C12','C13','C15','C16','C17','C18']:
     NOT_APPLICABLE.setdefault(_p, 'not yet claimed: units under construction (see DESIGN.md section 5)')
